@@ -252,6 +252,24 @@ def _polarity(n):
     return n, pos
 
 
+def _polarity0(n):
+    """like _polarity, additionally `x != 0` / `x == 0` / `0 != x` (comparison of a result with zero)"""
+    n, pos = _polarity(n)
+    for _ in range(4):
+        if n is not None and n.get("k") == "BinaryOperator" and n.get("op") in ("!=", "==") and len(n.get("c") or []) == 2:
+            a, b = _strip(n["c"][0]), _strip(n["c"][1])
+            zero = [x for x in (a, b) if x is not None and x.get("k") == "IntegerLiteral" and x.get("v") == 0]
+            if len(zero) != 1:
+                break
+            if n["op"] == "==":
+                pos = not pos
+            inner, p2 = _polarity(b if zero[0] is a else a)
+            n, pos = inner, (pos if p2 else not pos)
+        else:
+            break
+    return n, pos
+
+
 # =========================================================================== A1 / A2
 
 class Handler:
@@ -1694,7 +1712,7 @@ class ScratchUnit:
         self.memo[mkey] = out
         return out
 
-    def ret_class(self, expr, tok, last_call, last_rets):
+    def ret_class(self, expr, tok, last_call, last_rets, var_rets=None):
         """Return-value classes of `return expr;` for one token: 0 (zero), 'nz', '?'.  Keeps the
         error exits of a callee apart from its normal exits in `if (handler(atts)) return 1;`."""
         e = _strip(expr)
@@ -1705,6 +1723,8 @@ class ScratchUnit:
             return {0 if _zero_const(e) else "nz"}
         if last_call is not None and e.get("id") == last_call:
             return set(last_rets.get(tok, {"?"}))
+        if k == "DeclRefExpr" and var_rets and e["ref"].get("decl") in var_rets:
+            return set(var_rets[e["ref"]["decl"]].get(tok, {"?"}))
         if k == "BinaryOperator" and e.get("op") == "=" and self.is_state(e["c"][0]):
             v = self.fsm._const_of(e["c"][1])
             if v is not None:
@@ -1743,6 +1763,7 @@ class ScratchUnit:
         work = [cfg.entry]
         exits = set()
         ret_pairs = set()      # (token, return class) recorded at return statements
+        var_rets = {}          # local holding the result of a same-class call: decl -> {token: classes}
         while work:
             self.steps += 1
             if self.steps > 2000000:
@@ -1762,8 +1783,16 @@ class ScratchUnit:
                 if k == "ReturnStmt":
                     rv = (n.get("c") or [n.get("value")])[0] if (n.get("c") or n.get("value")) else None
                     for t in toks:
-                        for r in self.ret_class(rv, t, last_call, last_rets):
+                        for r in self.ret_class(rv, t, last_call, last_rets, var_rets):
                             ret_pairs.add((t, r))
+                    continue
+                if k == "DeclStmt" and last_call is not None:
+                    for d in n.get("decls", []) or []:
+                        init = _strip(d.get("init"))
+                        if init is not None and init.get("id") == last_call and "decl" in d:
+                            dst = var_rets.setdefault(d["decl"], {})
+                            for t_, rs_ in last_rets.items():
+                                dst.setdefault(t_, set()).update(rs_)
                     continue
                 f = self.unit_field(n)
                 if f is not None:
@@ -1884,17 +1913,21 @@ class ScratchUnit:
                 cond = _branch_value(fn, b)
                 ft = self.field_test(cond) if cond is not None else None
                 on_call = None         # the branch tests the value of the same-class call just made
-                if cond is not None and last_call is not None:
-                    inner, pos = _polarity(cond)
-                    if inner is not None and inner.get("id") == last_call:
+                on_rets = last_rets
+                if cond is not None:
+                    inner, pos = _polarity0(cond)
+                    if inner is not None and last_call is not None and inner.get("id") == last_call:
                         on_call = pos
+                    elif inner is not None and inner.get("k") == "DeclRefExpr" and inner["ref"].get("decl") in var_rets:
+                        on_call = pos
+                        on_rets = var_rets[inner["ref"]["decl"]]
                 for t in toks:
                     st = self.state_test(cond, t[0]) if cond is not None else None
                     for i, s in real:
                         if st is not None and i != st:
                             continue
                         if on_call is not None:
-                            rcs = last_rets.get(t, {"?"})
+                            rcs = on_rets.get(t, {"?"})
                             nonzero_edge = 0 if on_call else 1
                             if i == nonzero_edge and not (rcs & {"nz", "?"}):
                                 continue
